@@ -148,9 +148,10 @@ func corrC14(r *Run) {
 		"unmarshallable packets mixed in; plus free-running rounds on the writer-holding transport of the property text; " +
 		"non-trivial = schedules with at least two goroutines holding a Write at the same time; distinct by event list"
 	ts := pduTypes()
-	nForced := r.N(70, 1500)
+	nForced := r.N(100, 1500)
 	for i := 0; i < nForced; i++ {
-		c14Forced(r, ts, i)
+		i := i
+		confirmed(r, func() { c14Forced(r, ts, i) })
 	}
 	nFree := r.N(12, 150)
 	for i := 0; i < nFree; i++ {
